@@ -4,7 +4,7 @@
    Kinds:
      1201 B rejected a replayed item (rejection event) or panicked
      1202 per-node allocated/occupied of B differ from A's
-     1203 per-queue allocated/pending of B differ from A's (pending: from the shim's knowledge when a swap was in flight)
+     1203 per-queue allocated/pending of B differ from A's (pending, and per-node allocated: from the shim's knowledge when a swap was in flight)
      1204 per-application allocated/placeholder/pending of B differ from A's (pending: as above)
      1205 per-user usage of B differs from A's
      1206 an application of A is missing in B, sits in another queue (other than the recovery-queue exception) or has another user
@@ -55,7 +55,15 @@ Fixpoint rops_of (K : knowledge) (l : list ostep) : option (list rop) :=
 Definition last_obs (h : ohistory) : ostate := fold_left (fun _ st => st_obs st) (h_steps h) (h_init h).
 
 Definition key_kind (k : key) : N := fst k.
-Definition is_pending_kind (k : key) : bool := (key_kind k =? K_QUEUE_PEND) || (key_kind k =? K_APP_PEND).
+(* totals an in-flight placeholder swap can touch: the pending totals (the real ask is unbound for the shim) and the
+   allocated total of the node the real allocation is going to (the old core books it on that node at once when it
+   differs from the placeholder's node) *)
+Definition is_pending_kind (k : key) : bool := (key_kind k =? K_QUEUE_PEND) || (key_kind k =? K_APP_PEND) || (key_kind k =? K_NODE_ALLOC).
+(* a core's books agree with its own allocations and asks; with a swap in flight the node totals are not compared *)
+Definition books_ok (s : ostate) : bool :=
+  if no_inflight s then books_agree_on types123 s
+  else forallb (fun k => (key_kind k =? K_NODE_ALLOC) ||
+                         forallb (fun ty => Z.eqb (obs_total s k ty) (totals_from_knowledge (own_view s) k ty)) types123) (obs_keys s).
 Definition kind_of_key (k : key) : N :=
   let kd := key_kind k in
   if (kd =? K_NODE_ALLOC) || (kd =? K_NODE_OCC) then 1202
@@ -121,7 +129,7 @@ Fixpoint cont_steps (i : N) (l : list ostep) : list (N * N) :=
   match l with
   | [] => []
   | st :: t =>
-      map (fun k => (i, k)) (flag (negb (st_panic st)) 1201 ++ flag (books_agree_on types123 (st_obs st)) 1207 ++
+      map (fun k => (i, k)) (flag (negb (st_panic st)) 1201 ++ flag (books_ok (st_obs st)) 1207 ++
                              flat_map (new_alloc_fits (st_obs st)) (st_events st))
       ++ cont_steps (i + 1) t
   end.
@@ -141,8 +149,8 @@ Definition c12_check_case (h : N) (c : rccase) : list (N * N) :=
   if dup_foreign A then [(h * 1000 + 499, 1250)] else
   replay_steps (h * 1000) (h_steps (rc_replay c)) ++
   map (fun k => (h * 1000 + 499, k))
-      ((if books_agree_on types123 A then same_totals A B else []) ++ same_apps A B (rc_recq c) ++
-       flag (books_agree_on types123 B) 1207 ++ model_check A B (h_steps (rc_replay c))) ++
+      ((if books_ok A then same_totals A B else []) ++ same_apps A B (rc_recq c) ++
+       flag (books_ok B) 1207 ++ model_check A B (h_steps (rc_replay c))) ++
   cont_steps (h * 1000 + 500) (h_steps (rc_cont c)).
 
 Fixpoint c12_cases (h : N) (l : list rccase) : list (N * N) :=
